@@ -132,11 +132,13 @@ class Interp:
 
     MAX_PATHS = 512
 
-    def __init__(self, fn, run_attr='run', unroll=(0, 2), resolver=None, module_const=None):
+    def __init__(self, fn, run_attr='run', unroll=(0, 2), resolver=None, module_const=None, max_paths=None):
         # resolver(call) -> (helper FunctionDef, skip_first_param) for private helpers of the same class / module, or None
         # module_const(name) -> expression of a module-level constant, or None
         self.resolver = resolver
         self.module_const = module_const
+        if max_paths:
+            self.MAX_PATHS = max_paths
         self.depth = 0
         self.fn = fn
         self.run_attr = run_attr
